@@ -110,9 +110,17 @@ def start_date(sc):
 
 
 def day_starts(sc, extra=0):
-    """UTC seconds of the local midnights of the span (+ extra following days)"""
+    """UTC seconds of the cell starts of the daily grid: local midnight of every day of the span (+ extra following
+    days), or - "read_hour" - the local hour at which the daily meter reads of the scenario sit"""
     d0 = start_date(sc)
-    return [midnight(d0 + dt.timedelta(days=i), sc["tz"]) for i in range(sc["span"] + extra)]
+    h = sc.get("read_hour", 0)
+    if not h:
+        return [midnight(d0 + dt.timedelta(days=i), sc["tz"]) for i in range(sc["span"] + extra)]
+    out = []
+    for i in range(sc["span"] + extra):
+        d = d0 + dt.timedelta(days=i)
+        out.append(int(dt.datetime(d.year, d.month, d.day, h, tzinfo=ZoneInfo(sc["tz"])).timestamp()))
+    return out
 
 
 def hour_starts(sc):
@@ -182,6 +190,13 @@ def truth(sc):
             us = billing_daily_usage(sc)
         else:
             us = usage_cells(sc, n)
+        if sc.get("read_hour") and sc["entry"] == "frame":
+            # a day without a read is re-inserted by the class on the day grid of the frame (anchored at its first row:
+            # local midnight; from_series trims the frame to start at the first read), a day with a read keeps the
+            # timestamp of the read
+            mid = day_starts(dict(sc, read_hour=0), extra=1)
+            ts = [mid[i] if (i < n and (us[i] is None or (sc["electric"] and us[i] == 0))) else ts[i]
+                  for i in range(n + 1)]
         cells = []
         if sc["temp_source"] == "daily":
             tm = expand_runs(sc.get("temp_missing", []), n)
@@ -192,6 +207,8 @@ def truth(sc):
             hs = hour_starts(sc)
             hm = expand_runs(sc.get("temp_missing", []), len(hs))
             j = 0
+            while j < len(hs) and hs[j] < ts[0]:      # hours before the first read belong to no cell
+                j += 1
             for i in range(n):
                 tot = pres = 0
                 while j < len(hs) and hs[j] < ts[i + 1]:
